@@ -172,6 +172,9 @@ pub fn scenarios(thorough: bool) -> Vec<StopScenario> {
 	add("ws-peer-drops-during-stop", vec![ws(vec![PeerAct::SlowCall, PeerAct::Drop])], vec![], false, false, 1, mask_harness_only);
 	add("http-peer-drops-during-stop", vec![http(vec![HttpAct::CallThenDrop])], vec![], false, false, 1, mask_harness_only);
 	add("ws-idle-connection", vec![ws(vec![])], vec![], false, false, 1, mask_harness_only);
+	// control frames from the peer while the server waits for pending calls: they are not a disconnect
+	add("ws-peer-pongs-during-stop", vec![ws(vec![PeerAct::SlowCall, PeerAct::Pong])], vec![], false, false, 1, mask_harness_only);
+	add("ws-peer-pings-during-stop", vec![ws(vec![PeerAct::SlowCall, PeerAct::Ping, PeerAct::Call])], vec![], false, false, 1, mask_harness_only);
 	if thorough {
 		add("two-ws", vec![ws(vec![PeerAct::SlowCall]), ws(vec![PeerAct::SlowCall, PeerAct::Call])], vec![], false, false, 1, mask_harness_only);
 		add("ws-two-calls-server-points", vec![ws(vec![PeerAct::SlowCall, PeerAct::SlowCall])], vec![], false, false, 1, mask_all_server);
